@@ -207,14 +207,31 @@ mod v_iface_frag {
     }
 
     // ------------------------------------------------------------------ any order, duplicates, consistent overlap
-    // Ghost datagram of T bytes (24 < T <= 32): fragments A=[0,8) B=[8,16) C=[16,24) D=[24,T) (last, MF clear) and,
-    // if WITH_E, the consistent overlapping retransmission E=[8,24).  5 symbolic picks.
-    // (Copies have concrete lengths: one `offer` call site per fragment length.)
+    // Bounded witness of the composition (the unbounded argument is the step harness above): one reassembly slot,
+    // ghost datagram of T bytes (24 < T <= 32): fragments A=[0,8) B=[8,16) C=[16,24) D=[24,T) (last, MF clear) and,
+    // if WITH_E, the consistent overlapping retransmission E=[8,24).  STEPS symbolic picks from the empty slot.
+    // (`PacketAssemblerSet::get` is replaced by its effect on a free slot; ipv4_reasm_set_slots covers it.)
+    fn offer_pa<'a>(pa: &'a mut PacketAssembler<Key>, key: Key, expires: Instant, data: &[u8], off: usize, more_frags: bool) -> Option<&'a [u8]> {
+        if pa.key.is_none() {
+            pa.key = Some(key);
+            pa.expires_at = expires;
+        }
+        if !more_frags {
+            if pa.set_total_size(data.len() + off).is_err() {
+                return None;
+            }
+        }
+        if pa.add(data, off).is_err() {
+            return None;
+        }
+        pa.assemble()
+    }
+
     fn any_order<const T: usize, const WITH_E: bool, const STEPS: usize>() {
         let g: [u8; 32] = kani::any();
         let key: Key = kani::any();
         let exp = Instant::from_millis(60_000);
-        let mut set = PacketAssemblerSet::<Key>::new();
+        let mut pa = PacketAssembler::<Key>::new();
         let mut mask = 0u8;
         let mut over = false;
         let mut delivered = 0usize;
@@ -234,12 +251,12 @@ mod v_iface_frag {
                 mask |= bits;
                 over = over || runs4(mask) > ASSEMBLER_MAX_SEGMENT_COUNT;
                 let res = if WITH_E && pick == 4 {
-                    offer(&mut set, key, exp, &g[8..24], 8, true)
+                    offer_pa(&mut pa, key, exp, &g[8..24], 8, true)
                 } else if T != 32 && pick == 3 {
-                    offer(&mut set, key, exp, &g[24..T], 24, false)
+                    offer_pa(&mut pa, key, exp, &g[24..T], 24, false)
                 } else {
                     let off = pick as usize * 8;
-                    offer(&mut set, key, exp, &g[off..][..8], off, pick != 3)
+                    offer_pa(&mut pa, key, exp, &g[off..][..8], off, pick != 3)
                 };
                 match res {
                     Some(p) => {
@@ -254,11 +271,8 @@ mod v_iface_frag {
                         assert!(mask != 15 || over, "prop:c12_reasm_delivers_when_gaps_trackable");
                     }
                 }
-                // a delivered datagram releases its slot; an unfinished one keeps exactly one
-                {
-                    let used = set.assemblers[0].key.is_some() as usize + set.assemblers[1].key.is_some() as usize;
-                    assert!(used == (mask != 0) as usize, "prop:c12_reasm_slot_held_exactly_while_incomplete");
-                }
+                // a delivered datagram releases its slot; an unfinished one keeps it
+                assert!(pa.key.is_some() == (mask != 0), "prop:c12_reasm_slot_held_exactly_while_incomplete");
             }};
         }
         step!();
@@ -271,87 +285,25 @@ mod v_iface_frag {
         kani::cover!(delivered == 1 && ooo, "datagram delivered after out-of-order arrival");
         kani::cover!(delivered == 1 && late_total, "last fragment arrived before an earlier one");
         kani::cover!(delivered == 0 && mask == 13, "one block missing: nothing delivered");
-        if WITH_E {
-            kani::cover!(delivered == 1 && overlap, "datagram delivered with an overlapping retransmission");
-        }
+        kani::cover!(delivered == 1 && (overlap || !WITH_E), "datagram delivered (with an overlapping retransmission where offered)");
     }
 
-    // @harness props=C12 cfg=KI4r tier=q to=900 mem=8 unwind=12 opts=nomem covers=3 funcs=PacketAssemblerSet::get;PacketAssembler::set_total_size;PacketAssembler::add;PacketAssembler::assemble;PacketAssembler::is_complete;Assembler::add bounds=64-byte_reassembly_buffers_(KI4r);_datagram_of_32_bytes_in_4_fragments_of_8;_5_symbolic_picks_(every_order_and_duplication);_symbolic_bytes_and_key;_no_expiry
+    // @harness props=C12 cfg=KI4 tier=q to=600 mem=8 unwind=12 opts=nomem covers=4 funcs=PacketAssembler::set_total_size;PacketAssembler::add;PacketAssembler::assemble;PacketAssembler::is_complete;Assembler::add bounds=one_reassembly_slot;_datagram_of_32_bytes_in_4_fragments_of_8;_5_symbolic_picks_(every_order_and_duplication);_symbolic_bytes_and_key;_no_expiry
     #[kani::proof]
     pub(crate) fn ipv4_reasm_any_order_32() {
         any_order::<32, false, 5>();
     }
 
-    // @harness props=C12 cfg=KI4r tier=q to=900 mem=8 unwind=12 opts=nomem covers=3 funcs=PacketAssemblerSet::get;PacketAssembler::set_total_size;PacketAssembler::add;PacketAssembler::assemble;PacketAssembler::is_complete;Assembler::add bounds=64-byte_reassembly_buffers_(KI4r);_datagram_of_25_bytes_(last_fragment_1_byte)_in_4_fragments;_5_symbolic_picks;_symbolic_bytes_and_key;_no_expiry
+    // @harness props=C12 cfg=KI4 tier=q to=600 mem=8 unwind=12 opts=nomem covers=4 funcs=PacketAssembler::set_total_size;PacketAssembler::add;PacketAssembler::assemble;PacketAssembler::is_complete;Assembler::add bounds=one_reassembly_slot;_datagram_of_25_bytes_(last_fragment_1_byte)_in_4_fragments;_5_symbolic_picks;_symbolic_bytes_and_key;_no_expiry
     #[kani::proof]
     pub(crate) fn ipv4_reasm_any_order_25() {
         any_order::<25, false, 5>();
     }
 
-    // @harness props=C12 cfg=KI4r tier=q to=900 mem=8 unwind=12 opts=nomem covers=4 funcs=PacketAssemblerSet::get;PacketAssembler::set_total_size;PacketAssembler::add;PacketAssembler::assemble;PacketAssembler::is_complete;Assembler::add bounds=64-byte_reassembly_buffers_(KI4r);_datagram_of_32_bytes_in_4_fragments_of_8_plus_one_overlapping_16-byte_retransmission_[8,24);_5_symbolic_picks;_symbolic_bytes_and_key;_no_expiry
+    // @harness props=C12 cfg=KI4 tier=q to=600 mem=8 unwind=12 opts=nomem covers=4 funcs=PacketAssembler::set_total_size;PacketAssembler::add;PacketAssembler::assemble;PacketAssembler::is_complete;Assembler::add bounds=one_reassembly_slot;_datagram_of_32_bytes_in_4_fragments_of_8_plus_one_overlapping_16-byte_retransmission_[8,24);_5_symbolic_picks;_symbolic_bytes_and_key;_no_expiry
     #[kani::proof]
     pub(crate) fn ipv4_reasm_overlap_32() {
         any_order::<32, true, 5>();
-    }
-
-    // ------------------------------------------------------------------ two datagrams interleaved
-    // GA (key ka) and GB (key kb != ka), 16 bytes each in two fragments; 5 symbolic picks among the four
-    // fragments: each datagram comes out with its own bytes only.
-    // @harness props=C12 cfg=KI4r tier=q to=900 mem=8 unwind=12 opts=nomem covers=2 funcs=PacketAssemblerSet::get;PacketAssembler::set_total_size;PacketAssembler::add;PacketAssembler::assemble bounds=64-byte_reassembly_buffers_(KI4r);_two_datagrams_of_16_bytes_in_2_fragments_each;_distinct_symbolic_keys;_5_symbolic_picks;_2_reassembly_slots
-    #[kani::proof]
-    pub(crate) fn ipv4_reasm_two_datagrams() {
-        let ga: [u8; 16] = kani::any();
-        let gb: [u8; 16] = kani::any();
-        let ka: Key = kani::any();
-        let kb: Key = kani::any();
-        kani::assume(ka != kb);
-        let exp = Instant::from_millis(60_000);
-        let mut set = PacketAssemblerSet::<Key>::new();
-        let mut ma = 0u8;
-        let mut mb = 0u8;
-        let mut da = 0usize;
-        let mut db = 0usize;
-        let mut inter = false;
-        macro_rules! step {
-            () => {{
-                let pick: u8 = kani::any();
-                kani::assume(pick < 4);
-                crate::vdump!("pick {}", pick);
-                let is_a = pick < 2;
-                inter = inter || (is_a && mb != 0) || (!is_a && ma != 0);
-                if is_a { ma |= 1 << pick; } else { mb |= 1 << (pick - 2); }
-                let off = (pick & 1) as usize * 8;
-                let src: &[u8; 16] = if is_a { &ga } else { &gb };
-                let res = offer(&mut set, if is_a { ka } else { kb }, exp, &src[off..][..8], off, off == 0);
-                match res {
-                    Some(p) => {
-                        assert!(p.len() == 16, "prop:c12_reasm_delivered_length_exact");
-                        let k = any_lt(16);
-                        if is_a {
-                            assert!(ma == 3, "prop:c12_reasm_delivers_only_when_every_byte_present");
-                            assert!(p[k] == ga[k], "prop:c12_reasm_datagrams_never_mixed");
-                            ma = 0;
-                            da += 1;
-                        } else {
-                            assert!(mb == 3, "prop:c12_reasm_delivers_only_when_every_byte_present");
-                            assert!(p[k] == gb[k], "prop:c12_reasm_datagrams_never_mixed");
-                            mb = 0;
-                            db += 1;
-                        }
-                    }
-                    None => {
-                        assert!(if is_a { ma != 3 } else { mb != 3 }, "prop:c12_reasm_delivers_when_gaps_trackable");
-                    }
-                }
-            }};
-        }
-        step!();
-        step!();
-        step!();
-        step!();
-        step!();
-        kani::cover!(da == 1 && db == 1 && inter, "both datagrams delivered from interleaved fragments");
-        kani::cover!(da == 2, "the same datagram delivered twice when all of it was sent twice");
     }
 
     // ------------------------------------------------------------------ slots: keys, full set, expiry
@@ -559,3 +511,29 @@ mod v_iface_frag {
         assert!(r.is_some(), "prop:deliberately_false_single_fragment_completes_datagram");
     }
 }
+
+// Accessors used by harnesses living in other modules (iface_frag_tx.rs): only compiled under cfg(kani).
+#[allow(dead_code)]
+impl<K: Eq + Copy> PacketAssemblerSet<K> {
+    /// (in use, total_size, first hole, length of the first recorded range, expiry in ms) of slot i
+    pub(crate) fn verif_slot(&self, i: usize) -> (bool, Option<usize>, usize, usize, i64) {
+        let a = &self.assemblers[i];
+        let hole = a.assembler.verif_front_hole();
+        let mut len = 0;
+        let mut x = 0;
+        while x < 8 {
+            if a.assembler.verif_present(hole + x) {
+                len += 1;
+            }
+            x += 1;
+        }
+        if a.assembler.verif_present(hole + 8) {
+            len = 9;
+        }
+        (a.key.is_some(), a.total_size, hole, len, a.expires_at.total_millis())
+    }
+    pub(crate) fn verif_byte(&self, i: usize, at: usize) -> u8 {
+        self.assemblers[i].buffer[at]
+    }
+}
+
